@@ -21,6 +21,13 @@ fn machine(bytes: &[u8], layout: usize, regs: usize) -> Axecutor {
         ax.mem_init_area(DATA, vec![0x11; 0x100]).unwrap();
         ax.mem_init_area(STK, vec![0x22; 0x100]).unwrap();
     }
+    if layout == 3 {
+        // as layout 1, but the code may only be EXECUTED (no read permission): whatever the
+        // emulator does with the bytes of a failing instruction, it cannot read them as data
+        ax.mem_init_area(DATA, vec![0x11; 0x100]).unwrap();
+        ax.mem_init_area(STK, vec![0x22; 0x100]).unwrap();
+        ax.mem_prot(CODE_AT, 4).unwrap();
+    }
     if layout == 2 {
         // areas at both ends of the address space: address arithmetic at the extremes
         ax.mem_init_area(0, vec![0x33; 0x100]).unwrap();
@@ -166,7 +173,7 @@ fn one(e: &mut EnumCtx, bytes: &[u8]) {
     let mut all = crate::common::Fp::new();
     all.bytes(&bytes[..bytes.len().min(8)]);
     e.state(all.0);
-    for (layout, regs) in [(0usize, 0usize), (1, 0), (1, 1), (2, 2), (2, 3)] {
+    for (layout, regs) in [(0usize, 0usize), (1, 0), (1, 1), (2, 2), (2, 3), (3, 0)] {
         {
             let mut ax = machine(bytes, layout, regs);
             let out = crate::emu::step(&mut ax);
@@ -196,13 +203,28 @@ fn one(e: &mut EnumCtx, bytes: &[u8]) {
 
 /// (d) a code area that ENDS inside the instruction: the first `cut` bytes of the string are
 /// the whole code area (the decoder must notice that it ran out of bytes)
-fn truncated(e: &mut EnumCtx, bytes: &[u8], cut: usize) {
+/// `follow`: what lies directly behind the cut code area - 0 nothing, 1 a 2-byte executable
+/// area, 2 a 16-byte read/write area, 3 a 16-byte executable area (each holding the bytes the
+/// instruction would continue with).
+fn truncated(e: &mut EnumCtx, bytes: &[u8], cut: usize, follow: usize) {
     let code = &bytes[..cut];
     for regs in [0usize, 3] {
+        if follow != 0 && regs != 0 {
+            continue;
+        }
         let mut ax = match Axecutor::new(code, CODE_AT, CODE_AT) {
             Ok(a) => a,
             Err(_) => return,
         };
+        if follow != 0 {
+            let n = if follow == 1 { 2 } else { 16 };
+            let mut rest: Vec<u8> = bytes[cut..].iter().cloned().take(n).collect();
+            rest.resize(n, 0x90);
+            if ax.mem_init_area(CODE_AT + cut as u64, rest).is_err() {
+                return;
+            }
+            let _ = ax.mem_prot(CODE_AT + cut as u64, if follow == 2 { 3 } else { 5 });
+        }
         ax.mem_init_area(DATA, vec![0x11; 0x100]).unwrap();
         ax.mem_init_area(STK, vec![0x22; 0x100]).unwrap();
         for k in 0..16 {
@@ -223,7 +245,7 @@ fn truncated(e: &mut EnumCtx, bytes: &[u8], cut: usize) {
                 e.finding(
                     &key,
                     || format!("step on a code area of {cut} byte(s) [{}] panicked at {}: {}", crate::common::hex(code), p.loc, crate::emu::first_line(&p.msg)),
-                    || json!({"bytes": crate::common::hex(code), "truncated_code_area": cut, "regs": regs}),
+                    || json!({"bytes": crate::common::hex(code), "truncated_code_area": cut, "regs": regs, "area_behind_the_code": (["none", "2 bytes X", "16 bytes RW", "16 bytes X"][follow])}),
                 );
             }
         }
@@ -254,7 +276,14 @@ fn gen(thorough: bool) -> impl Fn(&mut EnumCtx) + Sync {
                         e.state(fp.0);
                         e.outcome(fp.0);
                         let b = buf.clone();
-                        truncated(e, &b, cut);
+                        truncated(e, &b, cut, 0);
+                        // an instruction that runs past the end of its area INTO another one:
+                        // the structured filler and the NOP filler, three kinds of neighbour
+                        if f[0] == 0x24 || f[0] == 0x90 {
+                            for follow in 1..=3 {
+                                truncated(e, &b, cut, follow);
+                            }
+                        }
                     }
                 }
             }
@@ -372,7 +401,7 @@ pub fn run(tier: Tier) -> i32 {
         run.findings.merge(f);
         run.cov("devlike_profile_run", summary);
     }
-    enum_evidence(&mut run, &out, "one case = a byte string used as code: (a) every 1- and 2-byte prefix x 4 fillers (thorough: every 3-byte prefix x 2 fillers), (b) legacy prefix menu x REX menu x every 1-byte and 0F-escaped opcode x every ModRM x SIB menu; each stepped in 5 (layout, register state) combinations: code only / code+data+stack with all registers pointing into mapped memory, code+data+stack with distinct filler and all flags set, and areas at both ends of the address space with all registers 0 / all registers 2^64-8, under catch_unwind, an allocation guard and a hang watchdog; FS/GS bases are part of the register state (0 / small / large enough to wrap); (c) the `syscall` instruction with the built-in brk/pipe/exit/arch_prctl handlers installed x 9 syscall numbers x (12 boundary values + the live pipe descriptors) x 12 x 12 argument values, on a fresh machine, on one where a pipe holding data and the heap exist, and on one where in addition the heap is the highest area below an area on the last page of the address space; (d) every 2-byte prefix x 4 fillers cut to every length 1..14 as the WHOLE code area (an instruction that runs past the end of the code); states = distinct 8-byte code prefixes; distinct_nontrivial = distinct (first 8 bytes, outcome class and RIP of the 5 runs)");
+    enum_evidence(&mut run, &out, "one case = a byte string used as code: (a) every 1- and 2-byte prefix x 4 fillers (thorough: every 3-byte prefix x 2 fillers), (b) legacy prefix menu x REX menu x every 1-byte and 0F-escaped opcode x every ModRM x SIB menu; each stepped in 6 (layout, register state) combinations (one of them with an execute-only code area): code only / code+data+stack with all registers pointing into mapped memory, code+data+stack with distinct filler and all flags set, and areas at both ends of the address space with all registers 0 / all registers 2^64-8, under catch_unwind, an allocation guard and a hang watchdog; FS/GS bases are part of the register state (0 / small / large enough to wrap); (c) the `syscall` instruction with the built-in brk/pipe/exit/arch_prctl handlers installed x 9 syscall numbers x (12 boundary values + the live pipe descriptors) x 12 x 12 argument values, on a fresh machine, on one where a pipe holding data and the heap exist, and on one where in addition the heap is the highest area below an area on the last page of the address space; (d) every 2-byte prefix x 4 fillers cut to every length 1..14 as the WHOLE code area (an instruction that runs past the end of the code), for two of the fillers also with another area directly behind the code (2 bytes executable / 16 bytes read-write / 16 bytes executable); states = distinct 8-byte code prefixes; distinct_nontrivial = distinct (first 8 bytes, outcome class and RIP of the 5 runs)");
     run.guard("cases", out.cases >= 1_000_000 || out.capped, format!("{} byte strings", out.cases));
     let okc = out.counters.get("ok").cloned().unwrap_or(0);
     let errc = out.counters.get("err").cloned().unwrap_or(0);
